@@ -126,6 +126,10 @@ var conds = []condDef{
 type orderDef struct {
 	Label string
 	Apply func(db *gorm.DB) *gorm.DB
+	// Ties: the orderings are equal for every row, so they say nothing about the
+	// row order; only finishers that add the key ordering themselves (First,
+	// Last, FindInBatches) and Count are run under such a chain.
+	Ties bool
 }
 
 var orders = []orderDef{
@@ -134,7 +138,13 @@ var orders = []orderDef{
 	{Label: `Order(OrderByColumn{pk})`, Apply: func(db *gorm.DB) *gorm.DB {
 		return db.Order(clause.OrderByColumn{Column: clause.Column{Table: clause.CurrentTable, Name: clause.PrimaryKey}})
 	}},
+	// three orderings (a column slice of length 3, capacity 4) on which all rows tie
+	{Label: `Order("a >= 0").Order("length(b) > 0").Order("id > 0")`, Ties: true, Apply: func(db *gorm.DB) *gorm.DB {
+		return db.Order("a >= 0").Order("length(b) > 0").Order("id > 0")
+	}},
 }
+
+const orderTies = 3
 
 func (c Chain) String() string {
 	var calls []string
@@ -272,7 +282,7 @@ func (c Chain) expectFind() []Item {
 func (c Chain) expectFinder(last bool) []Item {
 	_, _, off := c.effective()
 	m := c.matching()
-	if last && c.Order == 0 {
+	if last && (c.Order == 0 || orders[c.Order].Ties) {
 		rev := make([]Item, len(m))
 		for i := range m {
 			rev[len(m)-1-i] = m[i]
